@@ -168,7 +168,7 @@ Section Plain.
         assert (Hpairs : pairs cl fs m = emit1 fs tv).
         { rewrite (pairs_plain cl fs m Hwc Hnames), Hevars; [cbn [flat_map]; apply app_nil_r|].
           intros var Hv. rewrite Hevars in Hv. destruct Hv as [<-|[]].
-          apply (wf_text_noseq tv Hwt). }
+          split; [apply (wf_text_noseq tv Hwt)|left; apply (wf_text_nonil tv Hwt)]. }
         assert (Hkf : flat_map (fun vv => RoundtripGen.e_field c u (eobj n) (fst vv) (snd vv)) (pairs cl fs m)
                       = RoundtripGen.e_field c u (eobj n) tv (field_of fs tv)).
         { rewrite Hpairs. unfold emit1. destruct (field_of fs tv); cbn [flat_map fst snd]; rewrite ?app_nil_r; reflexivity. }
